@@ -12,7 +12,7 @@ from common import *
 ALL_INVS = ['I_SingleFlight', 'I_BurstCostsOne', 'I_NoEarlyRelease', 'I_NoUntimelyPublish', 'I_StoreMatchesKey', 'I_HitServed', 'I_LabelTruth', 'I_OnlyStoredIsShared',
             'I_KeyMatch', 'I_HitFresh', 'I_AgeTruth', 'I_RefetchAfterExpiry', 'I_HfpPass', 'I_HfpNeverCached',
             'I_HfpLapses', 'I_PurgeEffective', 'I_BadRecordIsMiss', 'I_NoOwnError', 'I_NoStuck', 'I_PublishedIsPersisted',
-            'I_NoWildRemoval']
+            'I_NoWildRemoval', 'I_NoWriteAfterPurge', 'I_Capacity']
 
 
 def purge_signature(inv, trace, beh=None):
